@@ -227,6 +227,7 @@ def check_dump_for_tree(ctx, real, model, H):
             if len(comps) > 1:
                 bases.append(("tree-prefix-component", "/".join(comps[:-1])))
                 bases.append(("tree-prefix-trailing-slash", "/".join(comps[:-1]) + "/"))
+                bases.append(("tree-prefix-several-trailing-slashes", "/".join(comps[:-1]) + rng.choice(["//", "///"])))
                 bases.append(("tree-prefix-textual-only", "/".join(comps[:-1])[:-1]))
                 bases.append(("tree-prefix-textual-only", first[:len(comps[0]) + 2]))
                 bases.append(("tree-prefix-component", comps[0]))
